@@ -383,7 +383,7 @@ def run(tier, seed=0):
            'evaluations': sum(r['queries'] for r in C.results), 'distinct_nontrivial': len(C.results), 'rule': 'evaluation = one validity query of an obligation on one path; distinct = obligation instances (method, sizes)',
            'obligations': len(C.results), 'discharged': sum(1 for r in C.results if r['verdict'] == 'holds'),
            'functions_encoded': sorted(short_fn(f) for f in ex.inlined), 'library_models': sorted(ex.modelled), 'solver_time_s': round(ex.t_solver, 2),
-           'bounds': 'maps of <= %d entries (two/three interacting maps: see obligation names), operation sequences <= %d, all u32 slot values; large maps of 11-40 entries built directly in sorted form with one symbolic operation; SmallVec modelled as a sequence (its inline/heap switch at 10 entries is not modelled)' % (3 if quick else 4, 3 if quick else 4),
+           'bounds': 'maps of <= %d entries (two/three interacting maps: see obligation names), operation sequences <= %d, all u32 slot values; large maps of 11-40 entries built directly in sorted form with one symbolic operation; SmallVec modelled as a sequence; capacity()/spilled() follow smallvec 1.x growth for a vector filled by successive insertions (10 inline, then 16, 32, 64)' % (3 if quick else 4, 3 if quick else 4),
            'exhaustive': False}
     common.write_evidence('C19', tier, 'model_checking', cov, ['SmallVec as a sequence; binary_search_by_key as the core-library algorithm (size/base halving) over solver-decided comparisons', 'derived PartialEq/Ord/Hash read only the sorted vector (structural model)'], time.time() - t0, len(violations), seed)
     return common.finish('C19', list(violations.values()), list(known_hits.items()), inconclusive)
